@@ -90,7 +90,7 @@ def check(tier, seed, only=None, skip_a=False, skip_b=False):
       findings += framework.findings_from_rtc(data)
       for k in ("evaluations", "distinct_nontrivial", "rule", "bounded_scope", "exhaustive", "samples", "per_contract"):
         cov[k] = data.get(k)
-  cov["explanation"] = ("Tier A (proved, pyvc + z3/cvc5, assumptions A-RE and the add_frames contract): on seven concrete word streams x {`:`, `;`} the "
+  cov["explanation"] = ("Tier A (proved, pyvc + z3/cvc5, assumptions A-RE and the add_frames contract): on twelve concrete word streams x {`:`, `;`} the "
                         "real reader runs with symbolic time code labels on every line; begin/end of every paragraph are exact frame multiples, not "
                         "before the line's label, within the window of the triggering word, for ALL valid labels.  Tier B: generated SCC streams (pop-on, roll-up, paint-on and mixed grammars x text_align "
                         "configuration) are read by the real to_model and compared frame by frame (characters, rows, style runs, change "
